@@ -31,6 +31,7 @@ EXPLANATION = (
     'dominated by compute_reflector(.., k), left blocks start at row k and right blocks at column k, row 0; apply_QtY / apply_YQ '
     'apply the reflectors in ascending order at offset = index (Q = P0 P1 ...). (D10) row / column copies used inside the loops are '
     'refreshed on every path of an iteration; (D11) every square root in the helpers is taken of a scaled quantity (1 + ratios), '
+    '(D12) matrix_QtHQ writes the whole output matrix on every normal path; '
     'never of a raw sum of squares (overflow / underflow of the squares for entries near the thresholds). NOT decided: orthogonality, Q R = H - s I and Q\'HQ to n*eps (rounding), the '
     'Taylor branches of the magnitude helpers, deflation thresholds and block splitting (index safety of the blocks is C13). '
     'Those clauses of the property remain undecided by this technique.')
@@ -1175,9 +1176,45 @@ def _addends(t):
     return [t]
 
 
+def output_fully_defined(ctx, rule='output-matrix-fully-overwritten'):
+    """matrix_QtHQ(dest) OVERWRITES dest with Q'HQ: on every normal path the whole value of the output parameter is written
+    (assignment, setZero / setIdentity of the resized object) before the member returns; writing only a band of a matrix that
+    keeps its old content elsewhere returns something that is not Q'HQ."""
+    from . import paths
+    n = 0
+    seen = set()
+    for fn in ctx.F.concrete():
+        if fn.cls not in ('Spectra::UpperHessenbergQR', 'Spectra::TridiagQR', 'Spectra::DoubleShiftQR') or fn.name != 'matrix_QtHQ' or not fn.cfg or fn.mangled in seen:
+            continue
+        seen.add(fn.mangled)
+        n += 1
+        pid = fn.params[0]
+        fe = ctx.E.of(fn)
+        whole = set()
+        for a in fe.accesses:
+            if a.path == ('%local', pid) and a.mode == 'w' and a.whole:
+                nd = fn.nodes[a.node]
+                if nd['k'] == 'CXXMemberCallExpr' and nd.get('callee') in ('resize', 'conservativeResize'):
+                    continue
+                whole.add(a.node)
+        # a call handing dest to a sibling overload that overwrites it
+        for x in fn.walk():
+            if x['k'] == 'CXXMemberCallExpr' and x.get('callee') == 'matrix_QtHQ':
+                whole.add(x['id'])
+        hit = paths.search(fn, [], stop=lambda m: m['id'] in whole, target=lambda m: m['k'] == 'ReturnStmt',
+                           include_entry=True, exit_is_target=lambda b: True, normal_only=True)
+        inst = '%s::matrix_QtHQ' % fn.cls.replace('Spectra::', '')
+        ctx.check(hit is None and bool(whole), rule, inst, fn.qname,
+                  'every normal path writes the whole output (%d whole-object writes)' % len(whole) if hit is None and whole else
+                  'a normal path returns without having written the whole output matrix: entries outside what this call writes keep the caller\'s old values')
+    if n < 3:
+        raise AnalysisBroken('only %d matrix_QtHQ members analysed' % n)
+
+
 def run(ctx):
     rotations(ctx)
     double_shift(ctx)
     scaled_norms(ctx)
+    output_fully_defined(ctx)
     from . import stale
     stale.loop_buffers(ctx, scope=lambda fn: fn.cls in ('Spectra::UpperHessenbergQR', 'Spectra::TridiagQR', 'Spectra::DoubleShiftQR'), min_instances=4)
